@@ -18,18 +18,26 @@ INFO = {
         'quick': {'name_components': '0..3, value 0..2 symbolic bytes, type symbolic in 1- and 3-byte form',
                   'integers': 'nonce [0,2^32), lifetime/content_type/freshness [0,2^64), hop_limit [0,256) all symbolic',
                   'payload_symbolic_bytes': '0..4', 'payload_concrete_lengths': '230..300 and 65500..65560 (zero filled)',
+                  'payload_symbolic_length': 'elastic harnesses: Content / ApplicationParameters of opaque content whose '
+                                             'LENGTH is a solver variable in [0, 70000] (thorough [0, 2^20]); signers '
+                                             'none, null, digest, hmac, ecdsa (real signature length 70..72; thorough '
+                                             'every signer and every length 0..72)',
                   'signature_real_length': 'symbolic r in [0,72] for ECDSA, fixed for the others',
                   'final_block_id': 'absent or 0..3 symbolic bytes', 'forwarding_hint': '0..2 names'},
         'thorough': {'name_components': '0..4', 'payload_symbolic_bytes': '0..8',
                      'payload_concrete_lengths': '0..400, 65400..65700 step 1 plus 2^16+-40'}},
     'outside': ['names longer than the bound', 'RSA-style signatures >= 253 bytes with shrink (raises by design)',
-                'real DER structure of signatures', 'payload lengths not enumerated (each enumerated length is solver-'
-                'decided in every other variable)'],
+                'real DER structure of signatures', 'payload lengths above 2^20; in the enumerated-length harnesses each '
+                'enumerated length is solver-decided in every other variable; in the elastic harnesses the payload content '
+                'is opaque (never inspected by the encoder / decoder) and a digest or signature over a message containing '
+                'it is an unconstrained value'],
     'assumptions': ['ideal hash / signature model (symex/crypto.py)', 'struct / bytes / bytearray / memoryview / int / '
                     'isinstance / len shims (symex/core.py) validated by native replay of every path',
                     'clock and nonce are arbitrary values of their range'],
 }
 MANDATORY = {'data_fields': ['data-rt-content', 'data-ref-wellformed'],
+             'data_elastic': ['data-rt-content', 'data-ref-wellformed', 'end'],
+             'interest_elastic': ['int-rt-app', 'int-ref-wellformed', 'end'],
              'interest_fields': ['int-rt-name', 'int-ref-wellformed']}
 
 
@@ -44,20 +52,8 @@ def _digest_comp_ok(c):
 
 
 # ---------------------------------------------------------------------------------------------
-def check_data(eng, name, meta_in, content, signer_kind, signer, form='list'):
-    """encode, check the wire with the reference reader, decode, compare. meta_in = None | dict"""
-    enc = _lib()
-    if meta_in is None:
-        meta = None
-    else:
-        meta = enc.MetaInfo(content_type=meta_in['ct'], freshness_period=meta_in['fp'],
-                            final_block_id=meta_in['fbi'])
-    try:
-        wire = enc.make_data(env.name_in_form(name, form), meta, content, signer)
-    except Exception as e:
-        eng.fail('data-encode-raises', exc_sig(e), repr(e)[:200])
-        return None
-    w = blist(wire)
+def ref_check_data(eng, w, name, meta_in, content, signer_kind):
+    """the reference reader's view of an emitted Data wire (list of byte elements); returns its field dict or None"""
     try:
         rv = ref.parse_data(w)
         ok, tree = ref.strict_tree(w, 0, len(w), [('data', 6, 'model', (ref.DATA, False))])
@@ -92,6 +88,25 @@ def check_data(eng, name, meta_in, content, signer_kind, signer, form='list'):
     else:
         eng.check('signature_info' in rv and 'signature_value' in rv, 'data-ref-sig')
         eng.check(rv['signature_info'].get('signature_type') == env.SIG_TYPE[signer_kind], 'data-ref-sig')
+    return rv
+
+
+def check_data(eng, name, meta_in, content, signer_kind, signer, form='list'):
+    """encode, check the wire with the reference reader, decode, compare. meta_in = None | dict"""
+    enc = _lib()
+    if meta_in is None:
+        meta = None
+    else:
+        meta = enc.MetaInfo(content_type=meta_in['ct'], freshness_period=meta_in['fp'],
+                            final_block_id=meta_in['fbi'])
+    try:
+        wire = enc.make_data(env.name_in_form(name, form), meta, content, signer)
+    except Exception as e:
+        eng.fail('data-encode-raises', exc_sig(e), repr(e)[:200])
+        return None
+    rv = ref_check_data(eng, blist(wire), name, meta_in, content, signer_kind)
+    if rv is None:
+        return None
     # real decoder
     try:
         n2, m2, c2, sig = enc.parse_data(wire)
@@ -332,7 +347,192 @@ def h_interest_payload(eng, case):
     eng.reach('end')
 
 
-HARNESSES = {'data_fields': h_data_fields, 'data_names': h_data_names, 'data_payload': h_data_payload,
+# ---------------------------------------------------------------------------------------------
+# elastic payload: the LENGTH of Content / ApplicationParameters is a solver variable (symex/elastic.py)
+# ---------------------------------------------------------------------------------------------
+def _wlen(w):
+    from symex.core import s_len
+    return s_len(w)
+
+
+def _num_list(v):
+    """shortest-form TLV number written by the harness"""
+    if v <= 0xFC:
+        return [v]
+    if v <= 0xFFFF:
+        return [0xFD] + list(v.to_bytes(2, 'big'))
+    return [0xFE] + list(v.to_bytes(4, 'big'))
+
+
+def elastic_split(eng, wire, outer_type, payload_type, payload, label):
+    """strict top-level reading of an emitted packet whose payload has symbolic length: the outer element is exact
+    and in shortest form, its children tile the value exactly, the child of type ``payload_type`` has an exact,
+    shortest-form length and its value region IS the payload.  Returns the surrogate packet (list of byte elements)
+    in which the payload child is replaced by an empty one - everything else is checked on it by the ordinary
+    reference reader - or None."""
+    from symex.api import mview
+    wire = mview(wire)
+    total = _wlen(wire)
+    try:
+        t, ts, m1 = ref.rd_num(wire, 0, total)
+        ln, ls, m2 = ref.rd_num(wire, ts, total)
+    except (ref.RefReject, IndexError) as r:
+        eng.fail(label, 'ref-reject:outer-header')
+        return None
+    eng.check(And(t == outer_type, m1, m2), label, sig='outer-type-or-form')
+    eng.check(ts + ls + ln == total, label, sig='outer length does not match the buffer')
+    off = ts + ls
+    body = []
+    seen_payload = 0
+    guard = 0
+    while off < total:
+        guard += 1
+        if guard > 12:
+            eng.fail(label, 'too-many-children')
+            return None
+        try:
+            et, s1, f1 = ref.rd_num(wire, off, total)
+            el, s2, f2 = ref.rd_num(wire, off + s1, total)
+        except (ref.RefReject, IndexError):
+            eng.fail(label, 'ref-reject:child-header')
+            return None
+        vs = off + s1 + s2
+        ve = vs + el
+        eng.check(ve <= total, label, sig='child overruns the packet')
+        eng.check(And(f1, f2), label, sig='child number not in shortest form')
+        et = as_int(et)
+        if et == payload_type:
+            seen_payload += 1
+            same = (wire[vs:ve] == payload)
+            eng.check(same, label, sig='payload region is not the payload')
+            body += _num_list(et) + [0]
+        else:
+            try:
+                body += blist(wire[off:ve])
+            except Exception:
+                eng.fail(label, 'child-overlaps-payload')
+                return None
+        off = ve
+    eng.check(off == total, label, sig='children do not tile the value')
+    eng.check(seen_payload == 1, label, sig='payload element count')
+    return [outer_type] + _num_list(len(body)) + body
+
+
+def _elastic_env(eng, case):
+    if case.get('fixed_env'):
+        env.set_clock(lambda: 1700000000123)
+        env.set_nonce(lambda: 0x01020304, lambda: 0x0102030405060708)
+    else:
+        env.symbolic_env(eng)
+
+
+def h_data_elastic(eng, case):
+    _elastic_env(eng, case)
+    enc = _lib()
+    name = env.name_from_shape(eng, [(1, 1)])
+    content, n = eng.elastic('content', case.get('min', 0), case['max'])
+    if eng.choice(2, 'meta?') == 0:
+        meta_in = None
+        meta = None
+    else:
+        meta_in = {'ct': env.optional_int(eng, 'ct', 0, 2 ** 64 - 1), 'fp': env.optional_int(eng, 'fp', 0, 2 ** 64 - 1),
+                   'fbi': None}
+        meta = enc.MetaInfo(content_type=meta_in['ct'], freshness_period=meta_in['fp'], final_block_id=None)
+    kind = case['signer']
+    signer = env.make_signer(eng, kind, rmin=case.get('rmin', 0), rmax=case.get('rmax'))
+    try:
+        wire = enc.make_data(name, meta, content, signer)
+    except Exception as e:
+        eng.fail('data-encode-raises', exc_sig(e), repr(e)[:200])
+        return
+    sur = elastic_split(eng, wire, 6, 0x15, content, 'data-ref-wellformed')
+    if sur is None:
+        return
+    rv = ref_check_data(eng, sur, name, meta_in, b'', kind)
+    if rv is None:
+        return
+    try:
+        n2, m2, c2, sig = enc.parse_data(wire)
+    except Exception as e:
+        eng.fail('data-decode-raises', exc_sig(e), repr(e)[:200])
+        return
+    eng.check(env.names_equal(n2, name), 'data-rt-name')
+    eng.check(c2 is not None and (c2 == content), 'data-rt-content')
+    if meta_in is None:
+        eng.check(And(m2.content_type == 0, m2.freshness_period is None, m2.final_block_id is None), 'data-rt-meta')
+    else:
+        for key, fld in (('ct', 'content_type'), ('fp', 'freshness_period')):
+            got = getattr(m2, fld)
+            if meta_in[key] is None:
+                eng.check(got is None, 'data-rt-meta')
+            else:
+                eng.check(got is not None and got == meta_in[key], 'data-rt-meta')
+        eng.check(m2.final_block_id is None, 'data-rt-meta')
+    if kind == 'none':
+        eng.check(sig.signature_info is None and sig.signature_value_buf is None, 'data-rt-sig')
+    else:
+        eng.check(sig.signature_info is not None and sig.signature_value_buf is not None, 'data-rt-sig')
+        if 'sigvalue' in rv['#region']:
+            _, vs, ve = rv['#region']['sigvalue']
+            eng.check(_wlen(sig.signature_value_buf) == ve - vs, 'data-rt-sig')
+            eng.observe('sig_len', ve - vs)
+    eng.observe('payload_len', n)
+    eng.observe('wire_len', _wlen(wire))
+    eng.reach('end')
+
+
+def h_interest_elastic(eng, case):
+    _elastic_env(eng, case)
+    enc = _lib()
+    name = env.name_from_shape(eng, [(1, 1)])
+    app, n = eng.elastic('app', case.get('min', 0), case['max'])
+    kind = case['signer']
+    signer = env.make_signer(eng, kind, for_interest=True, rmin=case.get('rmin', 0), rmax=case.get('rmax'))
+    lifetime = env.optional_int(eng, 'lifetime', 0, 2 ** 64 - 1)
+    param = enc.InterestParam(can_be_prefix=False, must_be_fresh=eng.bool('mbf'), nonce=eng.int('nonce', 0, 2 ** 32 - 1),
+                              lifetime=lifetime, hop_limit=None)
+    try:
+        wire = enc.make_interest(name, param, app, signer)
+    except Exception as e:
+        eng.fail('int-encode-raises', exc_sig(e), repr(e)[:200])
+        return
+    sur = elastic_split(eng, wire, 5, 0x24, app, 'int-ref-wellformed')
+    if sur is None:
+        return
+    try:
+        rv = ref.parse_interest(sur)
+        ok, tree = ref.strict_tree(sur, 0, len(sur), [('interest', 5, 'model', (ref.INTEREST, False))])
+    except ref.RefReject as r:
+        eng.fail('int-ref-wellformed', 'ref-reject:' + r.args[0])
+        return
+    eng.check(ok, 'int-ref-wellformed')
+    rn = rv['name']
+    eng.check(And(len(rn) == len(name) + 1, env.names_equal(rn[:len(name)], name), _digest_comp_ok(rn[-1])),
+              'int-ref-name')
+    eng.check(('lifetime' in rv) == (lifetime is not None) and (lifetime is None or rv['lifetime'] == lifetime),
+              'int-ref-param')
+    eng.check('nonce' in rv and rv['nonce'] == param.nonce, 'int-ref-param')
+    try:
+        n2, p2, a2, sig = enc.parse_interest(wire)
+    except Exception as e:
+        eng.fail('int-decode-raises', exc_sig(e), repr(e)[:200])
+        return
+    eng.check(And(len(n2) == len(name) + 1, env.names_equal(n2[:len(name)], name), _digest_comp_ok(n2[-1])),
+              'int-rt-name')
+    eng.check(a2 is not None and (a2 == app), 'int-rt-app')
+    eng.check((p2.lifetime is None) == (lifetime is None) and (lifetime is None or p2.lifetime == lifetime),
+              'int-rt-param')
+    eng.check(p2.nonce == param.nonce, 'int-rt-param')
+    if kind == 'none':
+        eng.check(sig.signature_info is None, 'int-rt-sig')
+    else:
+        eng.check(sig.signature_info is not None and sig.signature_value_buf is not None, 'int-rt-sig')
+    eng.observe('payload_len', n)
+    eng.observe('wire_len', _wlen(wire))
+    eng.reach('end')
+
+
+HARNESSES = {'data_elastic': h_data_elastic, 'interest_elastic': h_interest_elastic, 'data_fields': h_data_fields, 'data_names': h_data_names, 'data_payload': h_data_payload,
              'interest_fields': h_interest_fields, 'interest_names': h_interest_names,
              'interest_payload': h_interest_payload}
 
@@ -348,6 +548,23 @@ def _shapes(maxn, alphabet):
 def cases(tier, seed):
     cs = []
     quick = tier == 'quick'
+    # payload LENGTH as a solver variable (elastic buffers): every length in the range is decided at once
+    if quick:
+        for sk in ('none', 'digest', 'hmac', 'null'):
+            cs.append(('data_elastic', {'signer': sk, 'max': 70000, 'fixed_env': True}))
+        cs.append(('data_elastic', {'signer': 'ecdsa', 'max': 70000, 'rmin': 70, 'fixed_env': True}))
+        for sk in ('none', 'digest'):
+            cs.append(('interest_elastic', {'signer': sk, 'max': 70000, 'fixed_env': True}))
+        cs.append(('interest_elastic', {'signer': 'ecdsa', 'max': 70000, 'rmin': 71, 'fixed_env': True}))
+    else:
+        for h in ('data_elastic', 'interest_elastic'):
+            for sk in env.SIGNER_KINDS:
+                if sk == 'ecdsa':
+                    for lo in range(0, 73, 3):
+                        cs.append((h, {'signer': sk, 'max': 2 ** 20, 'rmin': lo, 'rmax': min(lo + 2, 72),
+                                       'fixed_env': True}))
+                else:
+                    cs.append((h, {'signer': sk, 'max': 2 ** 20}))
     contents = [None, 0, 1, 2, 4] if quick else [None, 0, 1, 2, 3, 4, 6, 8]
     for sk in env.SIGNER_KINDS:
         for k in contents:
